@@ -204,7 +204,7 @@ CHECKS['C13'] = dict(
     runs=[
         dict(h='h_c13.c', mode='enc', flavour='asan', n={'quick': 1600, 'thorough': 40000}),
         dict(h='h_c13.c', mode='enc', flavour='asan-fixed', n={'quick': 600, 'thorough': 15000}),
-        dict(h='h_c13.c', mode='encms', flavour='asan', n={'quick': 320, 'thorough': 8000}),
+        dict(h='h_c13.c', mode='encms', flavour='asan', n={'quick': 800, 'thorough': 20000}),
         dict(h='h_c13.c', mode='dec', flavour='asan', n={'quick': 1600, 'thorough': 40000}),
         dict(h='h_c13.c', mode='dec', flavour='prod', n={'quick': 1600, 'thorough': 40000}),
         dict(h='h_c13.c', mode='dec', flavour='asan-fixed', n={'quick': 480, 'thorough': 12000}),
